@@ -21,7 +21,8 @@ VARIABLES total, nlog, hist
 lvars == <<total, nlog, hist>>
 
 Min(a, b) == IF a < b THEN a ELSE b
-Snapshot(t) == [i \in 1..Min(t, Cap) |-> t + 1 - i]
+SnapshotC(t, c) == [i \in 1..Min(t, c) |-> t + 1 - i]
+Snapshot(t) == SnapshotC(t, Cap)
 
 Init == total = 0 /\ nlog = 1 /\ hist = <<>>
 
